@@ -531,4 +531,158 @@ Proof.
   rewrite (parse_stream_file cfg ctx pw) by assumption. reflexivity.
 Qed.
 
+(* ================================================================================================= *)
+(* 4. solid entries                                                                                    *)
+(* ================================================================================================= *)
+Notation build_solid := (build_solid E compress).
+Notation decode_solid := (decode_solid E D decompress verify).
+Notation solid_archive_chunks := (solid_archive_chunks E compress).
+
+Lemma ser_chunks_length_ge cs : (length cs <= length (ser_chunks cs))%nat.
+Proof.
+  induction cs as [|c cs IH]; [cbn; lia|]. rewrite ser_chunks_cons, app_length. cbn [length].
+  pose proof (ser_chunk_length_ge c). lia.
+Qed.
+
+(* the EntryIterator's chunk loop over one serialised entry *)
+Lemma inner_item_entry rest : forall body fuel acc, Forall okc body -> (length body < fuel)%nat ->
+  inner_item fuel (ser_chunks body ++ ser_chunk (mk FEND []) ++ rest) acc = Ok (Some (acc ++ body ++ [mk FEND []], rest)).
+Proof.
+  induction body as [|c body IH]; intros fuel acc Hb Hf; (destruct fuel as [|fuel]; [cbn [length] in Hf; lia|]);
+    cbn [inner_item].
+  - rewrite ser_chunks_nil. cbn [app]. rewrite read_chunk_ser by (split; [reflexivity|vm_compute; reflexivity]).
+    tysimp. reflexivity.
+  - inversion Hb as [|? ? [Hc Ht] Hb']; subst. rewrite ser_chunks_cons, <- app_assoc, read_chunk_ser by exact Hc.
+    destruct (is_term_false c Ht) as (Hfe & _ & _). apply orb_false_iff in Hfe. destruct Hfe as [-> _].
+    rewrite IH by (try assumption; cbn [length] in Hf; lia). rewrite <- app_assoc. reflexivity.
+Qed.
+
+Lemma solid_plain_stream_cons e inner :
+  solid_plain_stream (e :: inner) = ser_chunks (ser_normal e) ++ solid_plain_stream inner.
+Proof. unfold solid_plain_stream. cbn [map concat]. apply ser_chunks_app. Qed.
+
+Lemma inner_loop_entries : forall inner fuel, Forall wf_normal inner -> Forall fits inner -> (length inner < fuel)%nat ->
+  inner_entries_loop fuel (solid_plain_stream inner) = (map normalize inner, FinOk).
+Proof.
+  induction inner as [|e inner IH]; intros fuel Hw Hf Hl; (destruct fuel as [|fuel]; [cbn [length] in Hl; lia|]).
+  - reflexivity.
+  - inversion Hw as [|? ? He Hw']; subst. inversion Hf as [|? ? Hfe Hf']; subst.
+    cbn [inner_entries_loop]. rewrite solid_plain_stream_cons.
+    destruct (ser_normal_body e He Hfe) as (body & Eb & Hb).
+    rewrite Eb at 1 2. rewrite ser_chunks_snoc, <- app_assoc.
+    rewrite inner_item_entry.
+    + cbn [app]. rewrite <- Eb. rewrite (parse_ser_wf e He).
+      rewrite IH by (try assumption; cbn [length] in Hl; lia). reflexivity.
+    + exact Hb.
+    + rewrite !app_length. pose proof (ser_chunks_length_ge body). lia.
+Qed.
+
+Lemma solid_stream_length inner : (length inner <= length (solid_plain_stream inner))%nat.
+Proof.
+  induction inner as [|e inner IH]; [cbn; lia|]. rewrite solid_plain_stream_cons, app_length. cbn [length].
+  destruct (ser_normal_head e) as [tl ->]. pose proof (ser_chunks_length_ge (mk FHED (fhed_to_bytes (n_hdr e)) :: tl)).
+  cbn [length] in *. lia.
+Qed.
+
+(* SolidEntryBuilder: any configuration, any slicing of the inner entries' bytes, any buffer sizes:
+   the inner entries come back in order *)
+Theorem solid_roundtrip cfg ctx pw extra inner swcuts rbufs :
+  wf_ctx ctx pw -> Forall wf_normal inner -> Forall fits inner ->
+  concat swcuts = solid_plain_stream inner ->
+  Forall (fun n => 0 < n) rbufs -> covers cfg swcuts rbufs ->
+  decode_solid (build_solid cfg ctx extra swcuts) pw rbufs = Ok (map normalize inner, FinOk).
+Proof.
+  intros Hctx Hw Hf Hc Hp Hcov. unfold Pipeline.decode_solid, Pipeline.build_solid.
+  cbn [so_hdr so_phsf so_data s_comp s_enc s_mode]. unfold Pipeline.build_data.
+  rewrite (stream_roundtrip cfg ctx pw swcuts); try assumption; [|unfold flat_sink; apply concat_filter_ne].
+  cbn [bind]. rewrite Hc. rewrite inner_loop_entries; try assumption; [reflexivity|].
+  pose proof (solid_stream_length inner). lia.
+Qed.
+
+(* the same for inner entries made by EntryBuilder: they come back unchanged, and each decodes to its content *)
+Theorem solid_roundtrip_jobs cfg ctx pw extra jobs swcuts rbufs :
+  wf_ctx ctx pw -> Forall (wf_job pw) jobs ->
+  concat swcuts = solid_plain_stream (map build_job jobs) ->
+  Forall (fun n => 0 < n) rbufs -> covers cfg swcuts rbufs ->
+  decode_solid (build_solid cfg ctx extra swcuts) pw rbufs = Ok (map build_job jobs, FinOk) /\
+  forall j, In j jobs -> forall rb, Forall (fun n => 0 < n) rb ->
+    covers (eff_cfg (j_cfg j) (sp_kind (j_spec j))) (j_wcuts j) rb ->
+    decode_normal (build_job j) pw rb = Ok (sp_content (j_spec j)).
+Proof.
+  intros Hctx Hj Hc Hp Hcov. split.
+  - rewrite (solid_roundtrip cfg ctx pw extra (map build_job jobs)); try assumption.
+    + f_equal. f_equal. rewrite map_map. apply map_ext_in. intros j Hin. rewrite Forall_forall in Hj.
+      destruct (Hj j Hin) as (_ & Hcx & _). apply (normalize_build _ _ pw). exact Hcx.
+    + apply Forall_forall. intros e He. apply in_map_iff in He. destruct He as (j & <- & Hin).
+      rewrite Forall_forall in Hj. destruct (Hj j Hin) as (Hs & Hcx & Hwc & _). apply (build_wf_normal _ _ pw); assumption.
+    + apply Forall_forall. intros e He. apply in_map_iff in He. destruct He as (j & <- & Hin).
+      rewrite Forall_forall in Hj. apply (Hj j Hin).
+  - intros j Hin rb Hrb Hcv. rewrite Forall_forall in Hj. destruct (Hj j Hin) as (_ & Hcx & Hwc & _).
+    apply entry_roundtrip; assumption.
+Qed.
+
+(* SolidArchive (the streaming solid writer): the chunks it writes parse to a solid entry whose stream
+   decodes to the inner entries *)
+Definition solid_streamed (cfg : config) (ctx : cctx) (swcuts : list bytes) : solid_entry :=
+  {| so_hdr := {| s_major := 0; s_minor := 0; s_comp := g_comp cfg; s_enc := g_enc cfg; s_mode := g_mode cfg |};
+     so_phsf := phsf_part cfg ctx; so_data := iv_part cfg ctx ++ data_pieces cfg ctx swcuts; so_extra := [] |}.
+
+Lemma parse_solid_archive cfg ctx pw swcuts : wf_ctx ctx pw ->
+  parse_solid (solid_archive_chunks cfg ctx swcuts) = Ok (solid_streamed cfg ctx swcuts).
+Proof.
+  intros (_ & _ & Hu). unfold Pipeline.solid_archive_chunks, parse_solid, solid_streamed, chunk_sink.
+  cbn [app]. tysimp. cbn [negb].
+  rewrite sseg_shed by (split; cbn; lia).
+  rewrite sseg_phsf by (unfold phsf_part; destruct (encrypted cfg); cbn [opt_all]; [exact Hu|exact I]).
+  rewrite sseg_data, sseg_send. cbn [bind app]. unfold phsf_part. destruct (encrypted cfg); reflexivity.
+Qed.
+
+Theorem solid_archive_roundtrip cfg ctx pw inner swcuts rbufs :
+  wf_ctx ctx pw -> Forall wf_normal inner -> Forall fits inner ->
+  concat swcuts = solid_plain_stream inner ->
+  Forall (fun n => 0 < n) rbufs -> covers cfg swcuts rbufs ->
+  exists s, parse_solid (solid_archive_chunks cfg ctx swcuts) = Ok s /\
+            decode_solid s pw rbufs = Ok (map normalize inner, FinOk).
+Proof.
+  intros Hctx Hw Hf Hc Hp Hcov. exists (solid_streamed cfg ctx swcuts).
+  split; [apply (parse_solid_archive cfg ctx pw); exact Hctx|].
+  unfold Pipeline.decode_solid, solid_streamed. cbn [so_hdr so_phsf so_data s_comp s_enc s_mode].
+  rewrite (stream_roundtrip cfg ctx pw swcuts); try assumption; [|reflexivity].
+  cbn [bind]. rewrite Hc. rewrite inner_loop_entries; try assumption; [reflexivity|].
+  pose proof (solid_stream_length inner). lia.
+Qed.
+
+(* a built solid entry survives the archive: add_entry, then entries() *)
+Lemma build_solid_wf cfg ctx pw extra swcuts : wf_ctx ctx pw ->
+  Forall (fun c => is_known_solid c = false) extra -> wf_solid (build_solid cfg ctx extra swcuts).
+Proof.
+  intros (_ & _ & Hu) Hx. unfold wf_solid, shed_ok, Pipeline.build_solid. cbn [so_hdr so_phsf so_extra s_major s_minor].
+  split; [split; lia|]. split; [|exact Hx]. unfold phsf_part. destruct (encrypted cfg); cbn [opt_all]; [exact Hu|exact I].
+Qed.
+
+Lemma ser_solid_wf_entry s : Forall wf_chunk (ser_solid s) -> Forall (fun c => is_term c = false) (so_extra s) ->
+  wf_entry (ser_solid s).
+Proof.
+  intros Hw Hx. unfold ser_solid in *.
+  eexists _, (mk SEND []). split; [rewrite !app_assoc; reflexivity|]. split; [reflexivity|]. split; [exact Hw|].
+  repeat (apply Forall_app; split).
+  - repeat constructor.
+  - exact Hx.
+  - destruct (so_phsf s); cbn [opt_chunk]; repeat constructor.
+  - apply Forall_forall. intros c Hc. apply in_map_iff in Hc. destruct Hc as (d & <- & _). reflexivity.
+Qed.
+
+Theorem solid_entry_archive_roundtrip cfg ctx pw extra swcuts :
+  wf_ctx ctx pw -> Forall (fun c => is_known_solid c = false) extra -> Forall (fun c => is_term c = false) extra ->
+  Forall wf_chunk (ser_solid (build_solid cfg ctx extra swcuts)) ->
+  read_archive (write_archive_entries [RSolid (build_solid cfg ctx extra swcuts)]) =
+  Ok [RSolid (build_solid cfg ctx extra swcuts)].
+Proof.
+  intros Hctx Hk Ht Hw. unfold read_archive, write_archive_entries, entries. cbn [map ser_entry].
+  rewrite read_written; [|lia|constructor; [apply ser_solid_wf_entry; assumption|constructor]].
+  cbn [bind parse_all]. unfold parse_entry.
+  destruct (ser_solid_head (build_solid cfg ctx extra swcuts)) as [tl Etl]. rewrite Etl. tysimp. rewrite <- Etl.
+  rewrite (parse_ser_solid_wf _ (build_solid_wf cfg ctx pw extra swcuts Hctx Hk)). reflexivity.
+Qed.
+
 End PipelineFacts.
